@@ -5,7 +5,7 @@ cd "$(dirname "$0")/.." || exit 2
 rc=0
 for d in seeded/*/; do
   n=$(basename "$d"); id=${n%%-*}
-  out=$(SEEDTEST_LINES=40 tools/seedtest.sh "$id" "$d/patch.diff" quick 2>&1)
+  out=$(SEEDTEST_LINES=40 tools/seedtest.sh "$id" "$(pwd)/${d}patch.diff" quick 2>&1)
   if echo "$out" | grep -q "^VIOLATION property=$id"; then echo "caught  $n"; else echo "MISSED  $n"; rc=1; fi
 done
 exit $rc
